@@ -165,10 +165,22 @@ fn hist_acts() -> Vec<MAct> {
     ]
 }
 
+/// two watchers: both connections watch (the same key name, in either database), end their watches in every way
+/// and move between databases; the registrations of one must survive whatever the other does
+/// (a seeded UNWATCH that unregistered in the currently selected database cancelled the other connection's watch)
+fn two_watcher_acts() -> Vec<MAct> {
+    let cmd = |c: usize, v: &[&str]| MAct::Cmd(c, s(v));
+    vec![
+        cmd(0, &["WATCH", "k"]), cmd(0, &["UNWATCH"]), cmd(0, &["MULTI"]), cmd(0, &["EXEC"]), cmd(0, &["SELECT", "1"]), cmd(0, &["SELECT", "0"]), cmd(0, &["SET", "probe", "1"]),
+        cmd(1, &["WATCH", "k"]), cmd(1, &["WATCH", "ab"]), cmd(1, &["UNWATCH"]), cmd(1, &["MULTI"]), cmd(1, &["EXEC"]), cmd(1, &["DISCARD"]), cmd(1, &["SELECT", "1"]), cmd(1, &["SELECT", "0"]), cmd(1, &["SET", "k", "v"]),
+    ]
+}
+
 fn make_world(spec: &str) -> Option<Box<dyn World>> {
     let (acts, uses_time) = match spec {
         "c08-matrix" => (plan().acts, true),
         "c08-hist" => (hist_acts(), false),
+        "c08-two-watchers" => (two_watcher_acts(), false),
         _ => return None,
     };
     Some(Box::new(MultiWorld::new(MultiSpec { prop: "C08".into(), nconns: 2, acts, probes: vec![s(&["GET", "probe"]), s(&["EXISTS", "probe"])], uses_time, dump: true, srv_opts: SrvOpts::default() })))
@@ -280,7 +292,8 @@ fn extra_parent(pool: &Pool, _tier: &str, report: &mut RunReport) -> Value {
 fn prop() -> DataProp {
     DataProp {
         id: "C08",
-        specs: vec![SpecRun { spec: "c08-hist", depth_quick: 5, depth_thorough: 7, budget_quick_s: 25.0, budget_thorough_s: 1500.0 }],
+        specs: vec![SpecRun { spec: "c08-hist", depth_quick: 5, depth_thorough: 7, budget_quick_s: 25.0, budget_thorough_s: 1500.0 },
+            SpecRun { spec: "c08-two-watchers", depth_quick: 5, depth_thorough: 7, budget_quick_s: 25.0, budget_thorough_s: 1500.0 }],
         make_world,
         assumptions: {
             let mut a = e1common::std_assumptions();
